@@ -383,6 +383,9 @@ def run_case(case, scratch, pq, tag):
             if err:
                 return [err], info
             compare(before[path], after, problems, rgs=("drop", 0), num_rows="changed", pandas_json=True)
+            want_rows = get(before[path], 3)[1] - get(get(before[path], 4)[2][0], 3)[1]
+            if get(after, 3)[1] != want_rows:
+                problems.append("num_rows after removing the first row group: %r, expected %r" % (get(after, 3)[1], want_rows))
     except Exception as e:   # noqa
         info["raised"] = "%s: %s" % (type(e).__name__, str(e)[:200])
         problems.append("edit path raised on a legal foreign footer: " + info["raised"])
